@@ -15,3 +15,118 @@ def c15_median(run):
     kani_obligation(run, 'astria-core', MEDIAN_OVERLAYS, hs, 'crates/astria-core/src/oracles/price_feed/utils.rs', 'verif_kani_median', '/verif/kani/core/median_harness.rs',
                     timeout_s=1200 if run.tier == 'quick' else 3000)
     run.cur.bounds.update({'unwind': '4..10 (sort of <= 4 elements)', 'domain': 'every i128 price; list lengths 0..3 (quick), ..4 (thorough); longer lists are outside the claim'})
+
+
+# ----------------------------------------------------------------------------------------------------------------- C15-2/3
+from vlib import actions as A
+from vlib.seqworld import initial_world
+from mirsym import models as M
+from mirsym.engine import ok, err, some, none
+from vlib.actions import poll_result
+
+SIG_OK = z3.Function('extension_signature_valid', z3.BitVecSort(256), z3.BitVecSort(256), z3.BitVecSort(256), z3.BoolSort())
+MSG = z3.Function('canonical_vote_extension', z3.BitVecSort(256), z3.BitVecSort(64), z3.BitVecSort(64), z3.BitVecSort(256), z3.BitVecSort(256))
+EVI = 'tendermint::abci::types::ExtendedVoteInfo'
+
+
+def ve_hooks():
+    def h_siginfo_eq(ctx):
+        a, b = (ctx.ex.deref_val(ctx.st, x) for x in ctx.args[:2])
+        lazy, const = (a, b) if 'commit' in a.attrs else (b, a)
+        flag = const.fields.get(('Flag', 0)) if isinstance(const, Obj) else None
+        name = (flag.discr if isinstance(flag, Obj) else None) or (flag.attrs.get('const', '') if isinstance(flag, Obj) else '')
+        if 'Commit' in str(name):
+            return [(None, lazy.attrs['commit'])]
+        if 'Absent' in str(name):
+            return [(None, lazy.attrs['absent'])]
+        return None
+
+    def h_bytes_is_empty(ctx):
+        v = ctx.ex.deref_val(ctx.st, ctx.args[0])
+        return [(None, v.attrs['empty'])] if isinstance(v, Obj) and 'empty' in v.attrs else None
+
+    def h_sig_try_from(ctx):
+        src = ctx.ex.deref_val(ctx.st, ctx.args[0])
+        okv = z3.Bool(f'signature_wellformed_{getattr(src, "lz", 0)}')
+        return [(okv, (lambda s2: ok(s2.tr(src)))), (z3.Not(okv), err())]
+
+    def h_encode(ctx):
+        ex, st = ctx.ex, ctx.st
+        cve = ex.deref_val(st, ctx.args[0])
+        names = cve.attrs.get('field_names')
+        if not names:
+            raise Inconclusive('CanonicalVoteExtension built without named fields')
+        f = {n: cve.fields[(None, i)] for i, n in enumerate(names)}
+        ext = ex.deref_val(st, f['extension'])
+        m = Obj('Vec<u8>'); m.attrs['ident'] = MSG(M.ident(ext), f['height'], f['round'], M.ident(ex.deref_val(st, f['chain_id'])))
+        return [(None, m)]
+
+    def h_verify(ctx):
+        ex, st = ctx.ex, ctx.st
+        key, sig, msg = (ex.deref_val(st, x) for x in ctx.args[:3])
+        v = SIG_OK(key, M.ident(sig), M.ident(msg))
+        st.log.append(('verify', key, M.ident(sig), M.ident(msg)))
+        return [(v, ok(())), (z3.Not(v), (lambda s2: err()))]
+    ident_copy = lambda ctx: [(None, ctx.ex.copy_val(ctx.ex.deref_val(ctx.st, ctx.args[0])))]
+    return [(re.compile(r'^<(tendermint::abci::types::)?BlockSignatureInfo as PartialEq>::eq$'), h_siginfo_eq), (re.compile(r'^(bytes::)?Bytes::is_empty$'), h_bytes_is_empty),
+            (re.compile(r'^<([\w:]+::)?Signature as TryFrom<&\[u8\]>>::try_from$'), h_sig_try_from), (re.compile(r'Message>::encode_length_delimited_to_vec$'), h_encode),
+            (re.compile(r'VerificationKey::verify$'), h_verify), (re.compile(r'(^|::)Power::value$|(^|::)Round::value$'), lambda ctx: [(None, ctx.ex.deref_val(ctx.st, ctx.args[0]))]),
+            (re.compile(r'(^|::)Signature::as_bytes$|Bytes::to_vec$|^<\[u8\] as ToOwned>|chain::Id as ToString>::to_string$|^(core|std)::slice::<impl \[u8\]>::to_vec$|<(bytes::)?Bytes as Deref>::deref$|<Vec<u8> as Deref>::deref$|as_slice$'), ident_copy),
+            (re.compile(r'^(telemetry::display::)?base64'), lambda ctx: [(None, Obj('b64'))])]
+
+
+def mk_vote(ex, i):
+    a = ex.adts.lookup(EVI)
+    if not a:
+        raise Inconclusive('ExtendedVoteInfo not in the tendermint ADT table')
+    addr, power = z3.BitVec(f'vote{i}_address', 160), z3.BitVec(f'vote{i}_power', 64)
+    val = B.struct(ex, 'tendermint::abci::types::Validator', address=addr, power=power)
+    si = Obj('tendermint::abci::types::BlockSignatureInfo'); si.attrs['commit'] = z3.Bool(f'vote{i}_is_commit'); si.attrs['absent'] = z3.Bool(f'vote{i}_is_absent')
+    ext = Obj('bytes::Bytes'); ext.attrs['ident'] = z3.BitVec(f'vote{i}_extension', 256); ext.attrs['empty'] = z3.Bool(f'vote{i}_extension_empty')
+    sig = Obj('tendermint::Signature'); sig.attrs['ident'] = z3.BitVec(f'vote{i}_signature', 256)
+    so = Obj('std::option::Option<tendermint::Signature>'); so.fields[('Some', 0)] = sig; so.discr = z3.If(z3.Bool(f'vote{i}_has_signature'), z3.BitVecVal(1, 64), z3.BitVecVal(0, 64))
+    v = B.struct(ex, EVI, validator=val, sig_info=si, vote_extension=ext, extension_signature=so)
+    return v, dict(addr=addr, power=power, commit=si.attrs['commit'], absent=si.attrs['absent'], ext=ext.attrs['ident'], empty=ext.attrs['empty'], sig=sig.attrs['ident'], has_sig=z3.Bool(f'vote{i}_has_signature'))
+
+
+@obligation('C15', 'C15-2 validate_vote_extensions: accepted only with > 2/3 of the listed power behind validly signed extensions from distinct validators')
+def c15_2(run):
+    ex, W = A.engine(extra_hooks=ve_hooks())
+    f = ex.find(r'^(app::vote_extension::)?validate_vote_extensions$')
+    shapes = (0, 1, 2) if run.tier == 'quick' else (0, 1, 2, 3)
+    run.bound(votes=f'extended commits with {shapes} votes, arbitrary addresses / powers / flags / extensions / signatures', height='all u64 >= 2', signature='oracle: uninterpreted predicate of (key, signature, message)')
+    run.assume('ed25519 verification, protobuf encoding of the canonical vote extension and address prefixing are oracles; the validator key is read from the chain-state model')
+    n_ok = 0
+    for n in shapes:
+        w0 = initial_world()
+        votes = [mk_vote(ex, i) for i in range(n)]
+        eci = B.struct(ex, 'tendermint::abci::types::ExtendedCommitInfo', round=z3.BitVec('round', 32), votes=M.new_vec('Vec<ExtendedVoteInfo>', [v for v, _ in votes]))
+        height = z3.BitVec('height', 64)
+        st = ex.start(f, [B.cell(Obj('S', kind='cell')), height, B.cell(eci)], world=dict(w0))
+        st.pc += [z3.UGE(height, 2), z3.ULT(height, z3.BitVecVal(1 << 62, 64))] + [z3.Not(z3.And(m['commit'], m['absent'])) for _, m in votes]
+        for i, p in enumerate(run.explore(ex, st, poll=True, allow_havoc=(r'^Arguments::|fmt::',))):
+            lab = f'[{n} votes, path {i}]'
+            if p.kind != 'return':
+                run.prove(f'no panic {lab}', p.pc, z3.BoolVal(False), detail=p.info); continue
+            kind, r = poll_result(p)
+            if kind != 'Ok':
+                continue
+            n_ok += 1
+            run.sample({'votes': n, 'path': i})
+            ms = [m for _, m in votes]
+            total = sum((z3.ZeroExt(8, m['power']) for m in ms), z3.BitVecVal(0, 72))
+            submitted = sum((z3.If(m['commit'], z3.ZeroExt(8, m['power']), z3.BitVecVal(0, 72)) for m in ms), z3.BitVecVal(0, 72))
+            distinct = z3.And(*[ms[a_]['addr'] != ms[b_]['addr'] for a_ in range(n) for b_ in range(a_ + 1, n)]) if n > 1 else z3.BoolVal(True)
+            chain = z3.BitVec('chain_id', 256); rnd = z3.ZeroExt(32, z3.BitVec('round', 32))
+            per = []
+            for m in ms:
+                key = z3.Select(w0['validator_key'], m['addr'])
+                msg = MSG(m['ext'], height - 1, rnd, chain)
+                per.append(z3.If(m['commit'], z3.And(m['has_sig'], z3.Select(w0['validator_power?'], m['addr']), SIG_OK(key, m['sig'], msg)), z3.And(m['empty'], z3.Not(m['has_sig']))))
+            run.prove(f'accepted => distinct voters, non-zero total, strictly more than 2/3 of the listed power submitted extensions {lab}', p.pc,
+                      z3.And(distinct, total != 0, z3.UGT(submitted * 3, total * 2)))
+            run.prove(f'accepted => every commit vote carries a signature that verifies under the stored key of that validator over the canonical extension of (height-1, round, chain id); other votes carry nothing {lab}',
+                      p.pc, z3.And(*per) if per else z3.BoolVal(True))
+    if not n_ok:
+        raise Inconclusive('vacuity: no accepting path')
+    run.require_reached(*run.cur.reach)
